@@ -94,6 +94,9 @@ def replay(beh, cfg, tol=None):
             problems.append(("replay.outcome", i, "specification: %s, implementation: %s %s" % (want_out, call["outcome"], call["exc"])))
             break
         faulted = want_out == "exc"
+        if call.get("unconsumed") and not faulted:
+            problems.append(("replay.draw_kind_range", i, "%d draws of the behaviour were never requested by the code (it took "
+                             "these choices from somewhere else)" % call["unconsumed"]))
         clause = "replay.fault_atomic" if faulted else "replay.state"
         # importance / variance per feature (absent key = tracker never updated = 0)
         for nm, key in (("imp", "imp"), ("var", "var")):
